@@ -26,7 +26,8 @@ Record psim := mkPsim {
   ps_st : st;
   ps_held : list N;
   ps_next : N;
-  ps_fault : option (nat * Z * bool)
+  ps_fault : option (nat * Z * bool);
+  ps_amb : bool
 }.
 
 Definition sim_dv (base : Divider) (all : list N) (f : option (nat * Z * bool)) : nat -> Divider :=
@@ -48,26 +49,47 @@ Fixpoint list_eqb (a b : list N) : bool :=
   | _, _ => false
   end.
 
-Fixpoint sched_run (fixed : bool) (dv : nat -> Divider) (fuel : nat) (settle : bool) (last : option (list N * bool)) (s : st) : st :=
+(* does the select the scheduler is about to execute have more than one ready alternative?  (Go then chooses at random:
+   the scenario is not comparable step by step) *)
+Definition multi_ready (s : st) : bool :=
+  let nstop := if stopped s then 1%nat else 0%nat in
+  let nfb := match fbq s with [] => 0%nat | _ => 1%nat end in
+  let n :=
+    match pcs s with
+    | Top => (nstop + (match cmds s with [] => 0 | _ => 1 end) + nfb)%nat
+    | WaitFb | LimFb (S _) => (nstop + nfb)%nat
+    | Drain _ => if N.eqb (sum (actual s)) 0 then 0%nat else (nstop + nfb)%nat
+    | Read _ p _ _ _ =>
+        if N.eqb (get (tactic s) p) 0 then 0%nat else
+        match chan_state s p with
+        | Some (_, q, cl, _) => (nstop + match q with [] => if cl then 1 else 0 | _ => 1 end)%nat
+        | None => 0%nat
+        end
+    | Send _ _ _ _ _ => (nstop + if N.ltb (N.of_nat (length (outq s))) (outcap s) then 1 else 0)%nat
+    | _ => 0%nat
+    end in
+  Nat.ltb 1 n.
+
+Fixpoint sched_run (fixed : bool) (dv : nat -> Divider) (fuel : nat) (settle : bool) (last : option (list N * bool)) (amb : bool) (s : st) : st * bool :=
   match fuel with
-  | O => s
+  | O => (s, amb)
   | S f =>
       match sched_step fixed dv O s with
-      | Some s' => sched_run fixed dv f settle last s'
+      | Some s' => sched_run fixed dv f settle last (amb || multi_ready s) s'
       | None =>
-          if negb settle then s else
+          if negb settle then (s, amb) else
           match pcs s with
           | Idle =>
               let dg := digest s in
               let go := fun (seen : bool) =>
-                match env_step s Tick with Some s' => sched_run fixed dv f settle (Some (dg, seen)) s' | None => s end in
+                match env_step s Tick with Some s' => sched_run fixed dv f settle (Some (dg, seen)) amb s' | None => (s, amb) end in
               match last with
-              | Some (l, seen) => if list_eqb l dg then (if seen then s else go true) else go false
+              | Some (l, seen) => if list_eqb l dg then (if seen then (s, amb) else go true) else go false
               | None => go false
               end
           | Read _ _ _ _ _ =>
-              match env_step s Tick with Some s' => sched_run fixed dv f settle last s' | None => s end
-          | _ => s
+              match env_step s Tick with Some s' => sched_run fixed dv f settle last amb s' | None => (s, amb) end
+          | _ => (s, amb)
           end
       end
   end.
@@ -87,7 +109,7 @@ Definition apply_op (fixed : bool) (base : Divider) (fuel : nat) (sm : psim) (co
   let '(s1, sm1, res) :=
     if (code =? 1)%Z then
       match env_step s (Put (Z.to_nat a) (ps_next sm)) with
-      | Some s' => (s', mkPsim s' (ps_held sm) (ps_next sm + 1) (ps_fault sm), (0, 0))
+      | Some s' => (s', mkPsim s' (ps_held sm) (ps_next sm + 1) (ps_fault sm) (ps_amb sm), (0, 0))
       | None => (s, sm, (0, 0))
       end
     else if (code =? 2)%Z then (env_or_same s (Close (Z.to_nat a)), sm, (0, 0))
@@ -95,7 +117,7 @@ Definition apply_op (fixed : bool) (base : Divider) (fuel : nat) (sm : psim) (co
       match outq s with
       | (p, x) :: _ =>
           match env_step s Take with
-          | Some s' => (s', mkPsim s' (ps_held sm ++ [p]) (ps_next sm) (ps_fault sm), (p, x))
+          | Some s' => (s', mkPsim s' (ps_held sm ++ [p]) (ps_next sm) (ps_fault sm) (ps_amb sm), (p, x))
           | None => (s, sm, (0, 0))
           end
       | [] => (s, sm, (0, 0))
@@ -104,13 +126,13 @@ Definition apply_op (fixed : bool) (base : Divider) (fuel : nat) (sm : psim) (co
       match nth_mod (Z.to_N a) (ps_held sm) with
       | Some (p, rest) =>
           match env_step s (Release p) with
-          | Some s' => (s', mkPsim s' rest (ps_next sm) (ps_fault sm), (0, 0))
+          | Some s' => (s', mkPsim s' rest (ps_next sm) (ps_fault sm) (ps_amb sm), (0, 0))
           | None => (s, sm, (0, 0))
           end
       | None => (s, sm, (0, 0))
       end
-    else if (code =? 5)%Z then (s, mkPsim s (ps_held sm) (ps_next sm) (Some (ncalls s, a, false)), (0, 0))
-    else if (code =? 7)%Z then (s, mkPsim s (ps_held sm) (ps_next sm) (Some (ncalls s, a, true)), (0, 0))
+    else if (code =? 5)%Z then (s, mkPsim s (ps_held sm) (ps_next sm) (Some (ncalls s, a, false)) (ps_amb sm), (0, 0))
+    else if (code =? 7)%Z then (s, mkPsim s (ps_held sm) (ps_next sm) (Some (ncalls s, a, true)) (ps_amb sm), (0, 0))
     else if (code =? 8)%Z then
       (* AddInput(channel a, priority b); channel ids >= 1000 are unbuffered.  Refused by the driver after termination *)
       match pcs s with
@@ -125,5 +147,5 @@ Definition apply_op (fixed : bool) (base : Divider) (fuel : nat) (sm : psim) (co
     else if (code =? 10)%Z then (env_or_same s GracefulCall, sm, (0, 0))
     else if (code =? 11)%Z then (env_or_same s StopCall, sm, (0, 0))
     else (s, sm, (0, 0)) in
-  let s2 := sched_run fixed (sim_dv base (prios s1) (ps_fault sm1)) fuel settle None s1 in
-  (mkPsim s2 (ps_held sm1) (ps_next sm1) (ps_fault sm1), res).
+  let '(s2, amb) := sched_run fixed (sim_dv base (prios s1) (ps_fault sm1)) fuel settle None (ps_amb sm1) s1 in
+  (mkPsim s2 (ps_held sm1) (ps_next sm1) (ps_fault sm1) amb, res).
